@@ -160,6 +160,26 @@ DIRS = ["#if 1\n#endif", "#pragma once", "#include <stddef.h>", "#define X", "#l
 ENDS = ["", "\n", "\\\n", "\\", "\r\n", "\r", "\\\r\n", " ", "/*", "//x", "\"", "'"]
 
 
+# the redeclaration family (Edits.tla Redecls): one identifier, two declarations of kinds a and b, scope arrangement sc
+KINDS = {1: "enum { X };", 2: "typedef int X;", 3: "int X;", 4: "int X = 1;", 5: "int X(void);", 6: "int X(void) { return 0; }",
+         7: "struct X { int a; };", 8: "X: ;"}
+KIND_NAMES = {1: "enumerator", 2: "typedef", 3: "object", 4: "object-init", 5: "function-decl", 6: "function-def", 7: "tag", 8: "label", 9: "parameter"}
+
+
+def redecl_text(rd):
+    a, b, sc = rd["a"], rd["b"], rd["sc"]
+    A, B = KINDS.get(a, ""), KINDS[b]
+    if sc == 1:
+        return "%s\n%s\n" % (A, B)
+    if sc == 2:
+        return "void f(void) { %s %s }\n" % (A, B)
+    if sc == 3:
+        return "%s\nvoid f(void) { %s }\n" % (A, B)
+    if sc == 4:
+        return "void f(int X) { %s }\n" % B
+    return "void f(void) { %s { %s } }\n" % (A, B)
+
+
 def text_of(seed, r, tail=None):
     t = render([seed["toks"][j - 1] if j > 0 else ALPHABET[-j - 1] for j in r])
     if not tail or not tail["e"]:
@@ -212,7 +232,7 @@ def worker_main(jobfile):
                     f = "%s/i%d" % (d, j["id"])
                     j["text"] = j["text"].replace("SELFNAME", os.path.basename(f))
                     flags = [x.replace("SELFNAME", os.path.basename(f)) for x in flags]
-                open(f, "w", newline="").write(j["text"])
+                open(f, "w", newline="", encoding=j.get("enc", "utf-8")).write(j["text"])
             else:
                 f = j["path"]
             o, ef = "%s/o%d.s" % (d, j["id"]), "%s/e%d" % (d, j["id"])
@@ -242,7 +262,7 @@ def worker_main(jobfile):
                     fileok = True
                     nlines = nlines_of(open(lf, "rb").read())
             if not nlines:
-                nlines = nlines_of(j["text"].encode() if "text" in j else open(f, "rb").read())
+                nlines = nlines_of(j["text"].encode(j.get("enc", "utf-8")) if "text" in j else open(f, "rb").read())
             if hasloc and "text" in j and LINEDIR_RE.search(j["text"]):
                 nlines = max(nlines, line)      # a #line directive is in force: the line is a presumed line (C18 judges those)
             msg = ""
@@ -280,7 +300,8 @@ def run_inputs(ctx, tree, inputs, label, cpu=5, wall=30):
         x["id"] = i
     for w in range(nw):
         jf = "%s/j%d.json" % (d, w)
-        jobs = [dict(id=x["id"], flags=x.get("flags", []), **({"text": x["text"]} if "text" in x else {"path": x["path"]}))
+        jobs = [dict(id=x["id"], flags=x.get("flags", []), **({"enc": x["enc"]} if "enc" in x else {}),
+                     **({"text": x["text"]} if "text" in x else {"path": x["path"]}))
                 for x in inputs[w::nw]]
         json.dump(dict(cc=tree + "/chibicc", dir=d, cpu=cpu, wall=wall, jobs=jobs), open(jf, "w"))
         files.append(jf)
@@ -360,7 +381,7 @@ def gdb_site(ctx, tree, x, hang=False):
             f = "%s/g%s" % (d, h)
             txt = txt.replace("SELFNAME", os.path.basename(f))
             flags = [y.replace("SELFNAME", os.path.basename(f)) for y in flags]
-        open(f, "w", newline="").write(txt)
+        open(f, "w", newline="", encoding=x.get("enc", "utf-8")).write(txt)
     tree_files = set(os.path.basename(p) for p in glob.glob(tree + "/*.c") + glob.glob(tree + "/*.h"))
     args = [tree + "/chibicc", "-cc1"] + flags + ["-cc1-input", f, "-cc1-output", "/dev/null", f]
     if hang:
@@ -517,7 +538,7 @@ def judge(ctx, tree, inputs, label):
         for i, detail in bysig[sig][:3]:
             x = inputs[i]
             ctx.report(sig, "%s: %s on input %s: %s" % (rej[i], sig, x.get("name"), (x.get("text") or x.get("path", ""))[:160].replace("\n", "\\n")),
-                       case=dict(kind="input", name=x.get("name"), text=x.get("text"), path=x.get("path"), flags=x.get("flags", []),
+                       case=dict(kind="input", name=x.get("name"), text=x.get("text"), enc=x.get("enc"), path=x.get("path"), flags=x.get("flags", []),
                                  source=None if "text" in x or x.get("cls") in ("own", "test") else open(x["path"], errors="replace").read()[:200000],
                                  must=x["must"], cls=rej[i], obs={k: x["obs"][k] for k in OBS_KEYS + ("first", "msg", "aserr")}, detail=detail[-1200:]))
         for i, detail in bysig[sig][3:]:
@@ -543,6 +564,11 @@ def run(ctx):
         inputs.append(dict(name=s["name"], text=render(s["toks"]), must="accept" if s["valid"] else "any", cls="seed", seed=s["name"], ed="id",
                            flags=s["flags"]))
     for r in rows:
+        if r["s"] == 0:
+            rd = r["rd"]
+            nm = "redecl/%s+%s@%d" % (KIND_NAMES[rd["a"]], KIND_NAMES[rd["b"]], rd["sc"])
+            inputs.append(dict(name=nm, text=redecl_text(rd), must="any", cls="redecl", seed=nm, ed="id", flags=[]))
+            continue
         s = seeds[r["s"] - 1]
         if len(r["ed"]) == 1 and apply_edit(s["toks"], r["ed"][0]) != [s["toks"][j - 1] if j > 0 else ALPHABET[-j - 1] for j in r["r"]]:
             raise Infra("harness apply_edit disagrees with Edits.tla Apply on %s" % r)
@@ -550,6 +576,10 @@ def run(ctx):
                            cls="edit", seed=s["name"], ed=r["ed"], flags=s["flags"]))
     inputs += corpus_inputs(ctx, tree)
     inputs += big_inputs()
+    import c12
+    # every lexer context x every byte (the C12 garbage-in family): each must be Accepted or Diagnosed
+    inputs += [dict(name=n, text=b.decode("latin-1"), enc="latin-1", must="any", cls="lex", seed=n.rsplit("-", 1)[0], ed="id", flags=[])
+               for n, b in vt.subsample(c12.lex_files(), ctx.seed, 4 if q else 1)]
     control_events(ctx)
     rej = judge(ctx, tree, inputs, "main")
     for i, x in enumerate(inputs):
@@ -587,6 +617,8 @@ def replay(ctx, path):
     tree = ctx.build()
     x = dict(name=c.get("name"), must=c.get("must", "any"), cls="replay", flags=c.get("flags") or [])
     name = c.get("name") or ""
+    if c.get("enc"):
+        x["enc"] = c["enc"]
     if c.get("text") is not None:
         x["text"] = c["text"]
     elif name.startswith(("own/", "test/")):          # a file of the tree under test: take it from the current tree
